@@ -16,13 +16,19 @@ Model:
    open) over a universe of atoms and constructors of depth 1 (thorough: 2), for three value forms
    (function result, canonical literal, literal with holes) at eight flow sites (annotated binding, return,
    function argument, method argument, constructor field, reassignment, list element, parameter default).
+ spec/GenHole.tla  completeness of the traversal: six ill-typed expressions (unknown name / function / field / method,
+   a str operand of `+`, an argument of the wrong type) placed in every expression context (43: operands, arguments,
+   items, keys, indices, slice bounds, f-string holes, comprehension element / filter / source, constructors), composed
+   to depth 1 (thorough: 2, sampled), inside every statement context (27: every statement form, match subject / arm /
+   guard, closure body, loop nests, const / parameter-default / field-default initialisers, a class method);
+   contexts whose well-typed twin the real checker rejects are skipped and counted.
 Binding (B1, in process): the real checker must REJECT every mutant with at least one error whose span
 intersects the rendered range of the offending construct, and must ACCEPT the twin (guards the
 generator: a rejected twin is a tool error, never a violation).
 """
 import json
 
-from lib import common, render, typeflow
+from lib import common, holes, render, typeflow
 from lib.common import ToolError
 
 
@@ -202,6 +208,11 @@ def run(ctx):
             gt.append(common.tlc(ctx, "GenTypes", cfg="GenTypes_d2", workers=8, timeout=3000, want_tags=("CASE", "SITES")))
         for g in gt:
             common.require_tlc_ok(ctx, g, "GenTypes / Sanity")
+        gh = common.tlc(ctx, "GenHole", cfg="GenHole_1", workers=6, timeout=1200)
+        common.require_tlc_ok(ctx, gh, "GenHole")
+        hrows = gh["cases"]["CASE"]
+        if not ctx.quick:
+            hrows = hrows + common.tlc(ctx, "GenHole", cfg="GenHole_2", workers=8, timeout=1500, simulate=60000, depth=5)["cases"]["CASE"]
     mrows, trows = gm["cases"]["CASE"], rt["cases"]["CASE"]
     if ctx.quick:
         mrows = [r for r in mrows if len(r["kinds"]) <= 1] + rnd.sample([r for r in mrows if len(r["kinds"]) > 1], 350)
@@ -272,6 +283,13 @@ def run(ctx):
     n += len(flows)
     for r, site in flows:
         distinct.add(("flow", typeflow.ty_text(r["a"]), r["form"], typeflow.ty_text(r["b"]), site))
+    # ---------------------------------------------------------------- an ill-typed expression in every position (GenHole)
+    with ctx.timed("holes"):
+        hstats = holes.judge(ctx, hrows)
+    ctx.stats["holes"] = hstats
+    n += hstats["judged"]
+    for r in hrows:
+        distinct.add(("hole", r["off"], r["stmt"], r["inner"], r["depth"]))
     ctx.sample({"typeflow_case": typeflow.program(flows[len(flows) // 3][0], flows[len(flows) // 3][1])[0][-300:],
                 "accept": flows[len(flows) // 3][0]["accept"]})
     ctx.sample({"mutant": meta[3][2], "offender_span": meta[3][3]})
